@@ -118,7 +118,7 @@ def main(tier, replay):
         c = ck.cov["counters"]
         for k in ("traces_with_isolation", "reconnections", "traces_with_mixed_status_parallel_links"):
             if not c.get(k):
-                raise common.MachineryError("vacuity: %s = 0" % k)
+                ck.vacuity("vacuity: %s = 0" % k)
     hyd.finish_cov(ck, good, "multigraphs with 2-4 junctions, reservoir (+ tank), up to 7 links incl. parallel links between one node "
                    "pair, random initial closures and 1-5 time controls opening/closing links on and off the grid; plus random "
                    "networks with CV pipes, valves, pumps; every junction x reported row is a clause instance (zeroed <=> "
